@@ -29,9 +29,9 @@ func OpenFilesToChan(filenames <-chan string, gunzip bool, concurrency int, batc
 
 			go func(goFilename string) {
 				defer func() {
+					out.stopFileReading(goFilename)
 					<-sema
 					wg.Done()
-					out.stopFileReading(goFilename)
 				}()
 
 				var file io.ReadCloser
